@@ -1,6 +1,6 @@
 (* C06 — the streaming CRL reader agrees with a whole-document reference decoder.
    Property theorems only; proofs are in C06Core.v / C06Proofs.v. *)
-From Verif Require Import Base Bytes Reader Asn1Parser Pem CrlReader CrlSpec C06Core C06Proofs.
+From Verif Require Import Base Bytes Reader Asn1Parser Pem CrlReader CrlSpec C06Core C06Proofs PemProofs.
 
 (* For every document d of the supported profile (v1 or v2, UTCTime update times, every leaf
    structure within the 80 KiB element limit and accepted by encoding/asn1; ANY number of
@@ -53,6 +53,43 @@ Proof.
   rewrite Hc in E. eauto.
 Qed.
 Print Assumptions C06_reject_critical.
+
+(* "the outcome is the same for DER and 64-column PEM (LF or CRLF)": for EVERY byte string, armoured with
+   BEGIN/END X509 CRL lines and base64 in 64-column lines ending in LF or CRLF, the PEM path (IsPemFile, the line
+   filter, the base64 decoder) hands the ASN.1 reader exactly that byte string; a DER document is never taken
+   for PEM.  Hence the reader's outcome on the PEM file of a profile document is its outcome on the DER file. *)
+Theorem C06_pem_roundtrip : forall eol der,
+  is_eol eol -> Forall (fun b => (b < 256)%N) der -> stream_of_file (pem_file eol der) = der.
+Proof. exact pem_roundtrip. Qed.
+Print Assumptions C06_pem_roundtrip.
+
+Theorem C06_pem : forall L d number hash verifier eol s1 s2,
+  wf_profile L d number hash verifier -> is_eol eol -> Forall (fun b => (b < 256)%N) (encode_crl d) ->
+  read_crl L (pem_file eol (encode_crl d)) s1 s2 None = read_crl L (encode_crl d) s1 s2 None /\
+  exists allocs,
+    read_crl L (pem_file eol (encode_crl d)) s1 s2 None =
+    (events_of number d, (if crit_of L d then Err e_critical else Ok (result_of d hash verifier)), allocs).
+Proof.
+  intros L d number hash verifier eol s1 s2 Hwf He Hb.
+  assert (E : read_crl L (pem_file eol (encode_crl d)) s1 s2 None = read_crl L (encode_crl d) s1 s2 None).
+  { unfold read_crl. rewrite (pem_roundtrip eol (encode_crl d) He Hb).
+    unfold encode_crl, tlv. rewrite der_stream. reflexivity. }
+  split; [exact E|]. rewrite E. unfold read_crl.
+  replace (stream_of_file (encode_crl d)) with (encode_crl d) by (unfold encode_crl, tlv; rewrite der_stream; reflexivity).
+  apply read_stream_encode. exact Hwf.
+Qed.
+Print Assumptions C06_pem.
+
+(* an unknown version is rejected where the version field is read — before the issuer, the update times or any
+   entry has been handed to the consumer — for EVERY version byte other than 0 (v1) and 1 (v2), including 255
+   (int(uint8)+1 does not wrap), and whatever bytes follow.  (Stated at the header phase: for the whole stream the
+   first pass over the outer structure would have to be re-proved for documents outside the profile; whole
+   documents with versions 3, 4, 128 and -1 are covered by the correspondence.) *)
+Theorem C06_reject_unknown_version : forall L s (v : N) rest,
+  c_rest (core_of s) = ([2; 1; v]%N ++ rest) -> (2 <= v)%N ->
+  exists s', read_tbs_header L s = (Err e_version, s') /\ c_evs (core_of s') = c_evs (core_of s).
+Proof. intros L s v rest Hr Hv. exact (header_rejects_version L s (core_of s) v rest eq_refl Hr Hv). Qed.
+Print Assumptions C06_reject_unknown_version.
 
 (* non-vacuity: a concrete two-entry v2 document with extensions satisfies the profile *)
 Example C06_nonvacuous : exists L d number hash verifier,
